@@ -744,7 +744,7 @@ func genC17(r *Rand, p *Plan, tier string) {
 		p.Park = append(p.Park, "handler")
 	}
 	if r.Chance(20) {
-		p.Park = append(p.Park, PickOf(r, "log:context cancellation", "log:[%v] sessionID is complete", "log:Stopping server listener", "log:waiting for", "provider"))
+		p.Park = append(p.Park, PickOf(r, "log:context cancellation", "log:[%v] sessionID is complete", "log:Stopping server listener", "log:waiting for", "provider", "conn-close", "conn-close"))
 	}
 	p.Tape = r.Tape(1500)
 	p.MaxSteps = 1500
